@@ -136,6 +136,55 @@ theorem incomplete_map_rejected (re : Regex) (decode : Decoder) (pd : PD) (env :
   obtain ⟨mp, hmp, hid⟩ := hcov e he
   exact hmiss mp hmp hid
 
+/-! ### `wallet_verifier_agree` -/
+
+/-- FULL statement (false of the code, see the witness below and known_findings.json): whatever the wallet builds
+    from a definition is accepted by the verifier's validation of the same definition. -/
+def WalletVerifierAgreeStmt : Prop :=
+  ∀ (re : Regex) (decode : Decoder) (pd : PD) (wallet : List Cred) (env : Envelope) (ms : List Mapping) (vcs : List Cred),
+    build Facts.C12.cfg re pd [wallet] = .ok (ms, vcs) → env.presentations = [vcs] →
+    env.signerOK.any (fun b => !b) = false → (ms.map (·.id)).Nodup → Carries decode env.asInterface ms vcs →
+    (validate Facts.C12.cfg re decode pd env ms).isOk = true
+
+/-- PROVED PART: the verifier accepts the wallet's own submission (the descriptor map `Build` wrote, single-mapping
+    path rewrite included; envelope = one presentation carrying exactly the selected credentials, each found at the
+    path `Build` wrote; input descriptor ids distinct) **provided re-matching the presented credentials reproduces
+    the wallet's selection** (`hstable`). Missing for the full statement: `hstable` itself, which fails when a
+    presented credential also satisfies another input descriptor (`Validate` documents that assumption). -/
+theorem wallet_verifier_agree_partial (re : Regex) (decode : Decoder) (pd : PD) (env : Envelope)
+    (ms : List Mapping) (vcs : List Cred)
+    (hpres : env.presentations = [vcs]) (hsig : env.signerOK.any (fun b => !b) = false)
+    (hstable : pdMatch Facts.C12.cfg re pd vcs = .ok (ms, vcs))
+    (hids : (ms.map (·.id)).Nodup)
+    (hcar : Carries decode env.asInterface (rewriteSingle ms) vcs) :
+    ∃ m, validate Facts.C12.cfg re decode pd env (rewriteSingle ms) = .ok m ∧ expectedMap [] (rewriteSingle ms) vcs = .ok m :=
+  validate_own_submission Facts.C12.cfg re decode pd env ms vcs hpres hsig hstable hids hcar
+
+/-- WITNESS that the full statement is false: wallet `[cA, cB]`, `d1` wants `t = "B"`, `d2` accepts anything. The wallet
+    maps d1 ↦ cB, d2 ↦ cA and presents `[cB, cA]`; the verifier re-matches `[cB, cA]`, selects cB for d2 as well, and
+    rejects the wallet's correct submission ("incorrect mapping"). Replayed on the real code:
+    harness/corpus/C12/ambiguous-credential-disagree.jsonl -/
+def wA : Cred := { name := "cA", fmt := "jwt_vc", key := "kA", raw := "A", tree := .obj [("t", .str "A")], sigEmpty := true }
+def wB : Cred := { name := "cB", fmt := "jwt_vc", key := "kB", raw := "B", tree := .obj [("t", .str "B")], sigEmpty := true }
+def wPD : PD :=
+  { descs := [{ id := "d1", constraints := some [{ paths := [some { steps := [.key "t"] }], filter := some { type := "string", const := some "B" } }] },
+              { id := "d2", constraints := some [] }] }
+def wDecode : Decoder := fun v f =>
+  match v with
+  | .str s => if f == "jwt_vc" then (if s == "A" then some { cred := some wA } else if s == "B" then some { cred := some wB } else none) else none
+  | _ => none
+def wEnv : Envelope :=
+  { asInterface := .obj [("verifiableCredential", .arr [.str "B", .str "A"])], presentations := [[wB, wA]], signerOK := [true] }
+def wMs : List Mapping := [mkMapping "d1" "jwt_vc" 0, mkMapping "d2" "jwt_vc" 1]
+
+theorem wallet_verifier_disagree_witness : ¬ WalletVerifierAgreeStmt := by
+  intro h
+  have := h (fun _ _ => ReRes.noMatch) wDecode wPD [wA, wB] wEnv wMs [wB, wA] (by rw [fact_cfg_fixed]; rfl) rfl (by decide) (by decide)
+    ⟨⟨wB, rfl, rfl⟩, ⟨wA, rfl, rfl⟩, trivial⟩
+  rw [fact_cfg_fixed] at this
+  revert this
+  decide
+
 /-! ### `field_values_faithful` -/
 
 /-- every value `ResolveConstraintsFields` reports under a key `k` comes from a credential of the given map, through a
